@@ -292,7 +292,7 @@ func (cc c05Chain) build() *rux.Router {
 }
 
 func runC05(e *Env) {
-	e.Rule = "chains global+group+route middleware+main built through Use (one or several calls), Group middleware, variadic route middleware and Route.Use; exhaustive: every chain length 1..L (L=7 quick, 9 thorough) x every position of the aborting handler x {Abort, AbortThen, AbortWithStatus(code), AbortWithStatus(code,msg), code incl. 200, optionally after the first handler recorded another status without committing} x abort before/after/without its own Next() x extra Next() after the abort x every subset of the other handlers calling/not calling Next() x body byte written before the abort or not; sampled: long chains with totals around 31..33, 61..66 and 126..140 (beyond 63 through global middleware) and random behaviours (incl. double Next); after every aborted request a second request on the same router in which nobody aborts. Observed: enter/leave/abort events and IsAborted() sampled at entry, before/after the abort call and at leave of every handler, status/body at the recording writer. Oracle: specification-level interpreter of Next/Abort. Non-trivial: every case (each has an abort); distinct by chain description. Sampled chains may run behind an uninstrumented recover middleware and/or a buffering middleware that replaced c.Resp, or on a writer whose first body write fails. Re-dispatch part: a handler hands the context to the router again (HandleContext) and a handler of that inner chain aborts; then, on the same router, a request aborts in a middleware and the router serves another request inside that middleware before the first goes on (its abort must stand, it must keep its own context)."
+	e.Rule = "chains global+group+route middleware+main built through Use (one or several calls), Group middleware, variadic route middleware and Route.Use; exhaustive: every chain length 1..L (L=7 quick, 9 thorough) x every position of the aborting handler x {Abort, AbortThen, AbortWithStatus(code), AbortWithStatus(code,msg), code incl. 200, optionally after the first handler recorded another status without committing} x abort before/after/without its own Next() x extra Next() after the abort x every subset of the other handlers calling/not calling Next() x body byte written before the abort or not; sampled: long chains with totals around 31..33, 61..66 and 126..140 (beyond 63 through global middleware) and random behaviours (incl. double Next); after every aborted request a second request on the same router in which nobody aborts. Observed: enter/leave/abort events and IsAborted() sampled at entry, before/after the abort call and at leave of every handler, status/body at the recording writer. Oracle: specification-level interpreter of Next/Abort. Non-trivial: every case (each has an abort); distinct by chain description. Sampled chains may run behind an uninstrumented recover middleware and/or a buffering middleware that replaced c.Resp, or on a writer whose first body write fails, or behind pkg/handlers.Timeout(1h). Part mounted: the chain ends in a rux sub-router / HandlerFunc mounted through WrapH (it records a status or nothing, writes nothing, may abort its own context) and a middleware aborts with a status after its Next(). Re-dispatch part: a handler hands the context to the router again (HandleContext) and a handler of that inner chain aborts; then, on the same router, a request aborts in a middleware and the router serves another request inside that middleware before the first goes on (its abort must stand, it must keep its own context); and a handler that calls AbortWithStatus and then re-dispatches to a route that only writes a body (the status stands)."
 	e.Assumptions = []string{
 		"a route's own chain (group + route middleware + main handler) stays within the registration limit of 63; global middleware, which that limit does not count, makes executed chains of up to 140 entries",
 	}
@@ -805,6 +805,31 @@ func c05Redispatch(t *T) {
 	}
 	if kind == "AbortWithStatus" && (grec.Status() != code || grec.NumWH() != 1) {
 		t.Fail("abort-status-lost-while-another-request-was-served", "AbortWithStatus(%d) in a%d, then another request served inside it: the writer saw %s", code, ga, grec.CallLog())
+		return
+	}
+
+	// and: a handler refuses the request with a status (nothing committed yet) and hands it on to the
+	// page that explains why (an internal redirect to a route that only writes a body)
+	router.GET("/forward", func(c *rux.Context) {
+		rec := recOf(c)
+		rec.Ev("enter(f)")
+		c.AbortWithStatus(code)
+		c.Req.URL.Path = "/plain"
+		c.Router().HandleContext(c)
+		rec.Ev("leave(f) aborted=%v", c.IsAborted())
+	})
+	frec, fpv, fpan := Serve(router, NewReq("GET", "/forward"))
+	if fpan {
+		t.Fail("servehttp-panic", "AbortWithStatus followed by a re-dispatch panicked: %v", fpv)
+		return
+	}
+	t.Count("redispatch.after_abort_with_status", 1)
+	if !eventsEqual([]string{"enter(f)", "leave(f) aborted=true"}, frec.Events) {
+		t.Fail("redispatch-trace", "GET /forward (AbortWithStatus(%d), then HandleContext to /plain): observed trace %s", code, strings.Join(frec.Events, " "))
+		return
+	}
+	if frec.Status() != code || frec.NumWH() != 1 || frec.Body.String() != "plain" {
+		t.Fail("abort-status-lost-by-redispatch", "AbortWithStatus(%d) with nothing committed, then HandleContext to a route that only writes \"plain\": expected exactly one WriteHeader(%d) and that body, the writer saw %s (body %q)", code, code, frec.CallLog(), frec.Body.String())
 	}
 }
 
@@ -828,7 +853,9 @@ func c05Mounted(t *T) {
 		return map[string]any{"outer_middleware": nOuter, "aborting_middleware(after its Next)": ab, "mounted": kind, "mounted_handler_records_status": innerStatus, "mounted_handler_aborts_its_own_context": innerAborts, "abort_status": code, "with_message": withMsg, "timeout_middleware_first(1h)": useTimeout}
 	})
 	t.AutoSample()
+	var innerEntry []bool // IsAborted() of the mounted handler's own context when it starts: never true
 	innerFn := func(c *rux.Context) {
+		innerEntry = append(innerEntry, c.IsAborted())
 		if innerStatus != 0 {
 			c.SetStatus(innerStatus)
 		}
@@ -865,10 +892,20 @@ func c05Mounted(t *T) {
 		})
 	}
 	router.GET("/m", rux.WrapH(mounted), mws...)
+	if innerAborts {
+		// the same mounted handler has served (and aborted) an earlier request
+		_, _, _ = Serve(router, NewReq("GET", "/m"))
+	}
 	rec, pv, panicked := Serve(router, NewReq("GET", "/m"))
 	if panicked {
 		t.Fail("servehttp-panic", "a chain ending in a mounted rux handler panicked: %v", pv)
 		return
+	}
+	for i, ab := range innerEntry {
+		if ab {
+			t.Fail("IsAborted-true-before-any-abort", "the mounted %s (call %d of %d on this router; it calls Abort() on its own context: %v) started with IsAborted()==true although nothing had aborted that request", kind, i+1, len(innerEntry), innerAborts)
+			return
+		}
 	}
 	var want []string
 	for i := 0; i < nOuter; i++ {
